@@ -31,7 +31,7 @@ def main():
                 new = new.replace(extra["old"], extra["new"])
             open(path, "w").write(new)
             t = time.time()
-            env = dict(os.environ, VERIF_CASE_TIMEOUT=os.environ.get("VERIF_CASE_TIMEOUT", "15"))
+            env = dict(os.environ, VERIF_CASE_TIMEOUT=os.environ.get("VERIF_CASE_TIMEOUT", "15"), VERIF_EVIDENCE_DIR="/tmp/vfw-evidence-scratch")
             r = sh(os.path.join(VERIF, "check"), prop, "--tier", tier, cwd=VERIF, env=env)
             verdict = {0: "MISSED", 1: "caught", 2: "harness-error"}.get(r.returncode, str(r.returncode))
             first = next((l for l in r.stdout.splitlines() if l.startswith("  ")), "").strip()[:150]
